@@ -64,6 +64,7 @@ func init() {
 		"(reflect.rtype).NumField":        ext۰reflect۰rtype۰NumField,
 		"(reflect.rtype).NumIn":           ext۰reflect۰rtype۰NumIn,
 		"(reflect.rtype).NumMethod":       ext۰reflect۰rtype۰NumMethod,
+		"(reflect.rtype).Method":          ext۰reflect۰rtype۰Method,
 		"(reflect.rtype).NumOut":          ext۰reflect۰rtype۰NumOut,
 		"(reflect.rtype).Out":             ext۰reflect۰rtype۰Out,
 		"(reflect.rtype).Size":            ext۰reflect۰rtype۰Size,
